@@ -79,7 +79,12 @@ static void hbrace (int ms, FILE * out)
   for (;;)
     {
       /* what backend() does at the end of every cycle */
+      /* what backend() does at the end of every cycle (same accessor as backend.c, when it has one) */
+#ifdef HEART_BEAT_FLAG
+      if (HEART_BEAT_FLAG ())
+#else
       if (heart_beat_flag)
+#endif
         {
           call_heart_beat ();
           ticks++;
